@@ -129,13 +129,9 @@ def check(ctx):
     for pc, t, n in fs.raises:
         if "BootstrapElectionModelException" not in ir.show(t, maxdepth=2) or not pc:
             continue
-        c = pc[-1]
-        if not (c[1] and c[0][0] == "cmp" and c[0][1] in (">", "!=", ">=")):
+        e = ir.nonempty_entry(pc[-1])  # raised when the set is not empty (any spelling of that test)
+        if e is None:
             continue
-        l = c[0][2]
-        if not (l[0] == "call" and l[1] == ("global", "len") and c[0][3] == ("const", 0 if c[0][1] != ">=" else 1)):
-            continue
-        e = l[2][0]
         if e[0] == "bin" and e[1] in ("&", "-"):
             a, bb = setname(e[2]), setname(e[3])
         elif e[0] == "call" and e[1][0] == "attr" and e[1][2] in ("intersection", "difference") and len(e[2]) == 1:
@@ -255,9 +251,11 @@ def check(ctx):
                     member = inL if c_[2][2][0] == P("lhs_called_contests") else inR
                     if member and c_[1] in (">", "!=", ">=") :
                         return a_
-                if c_[0] == "cmp" and c_[2][0] == "call" and c_[2][1] == ("global", "len") and c_[2][2] and c_[3] == ("const", 0) and c_[1] in (">", "!="):
+                    if member and c_[1] == "==" and c_[3] == ("const", 0):
+                        return b_  # canonical polarity: (len == 0) with the non-empty branch second
+                if c_[0] == "cmp" and c_[2][0] == "call" and c_[2][1] == ("global", "len") and c_[2][2] and c_[3] == ("const", 0) and c_[1] in (">", "!=", "=="):
                     if evpositions(c_[2][2][0], inL, inR):
-                        return a_  # this contest is one of the positions, so the list is not empty
+                        return b_ if c_[1] == "==" else a_  # this contest is one of the positions, so the list is not empty
                 return a_ if a_ == b_ else None
             if t[0] == "call" and t[1][0] == "attr" and t[1][2] in ("copy", "astype"):
                 return ev_(t[1][1], inL, inR)
